@@ -6,7 +6,12 @@ from pathlib import Path
 V = Path(__file__).resolve().parent.parent
 CHECKS = {}
 NA = {}
-exec((V / "tools" / "manifest_table.py").read_text())
+for f in sorted((V / "tools" / "manifest.d").glob("C*.json")):
+    d = json.loads(f.read_text())
+    if "na_reason" in d:
+        NA[f.stem] = d["na_reason"]
+    else:
+        CHECKS[f.stem] = d
 
 props = [json.loads(l)["id"] for l in (V / "properties.jsonl").read_text().splitlines() if l.strip()]
 checks = []
@@ -29,7 +34,7 @@ na = [{"property_id": p, "reason": NA.get(p, "check not built yet in this revisi
 hooks_commits = []
 m = {
     "version": 1,
-    "setup_cmd": "cd lean && lake build Midgard Driver driver",
+    "setup_cmd": "cd lean && lake build",
     "hooks": {
         "guard": "MIDGARD_VERIF",
         "enable": "no source hooks are needed: checks import /repo's working tree in-process (PYTHONPATH=/repo) and set MIDGARD_VERIF=1 only as a marker",
